@@ -5,6 +5,9 @@ ROOT = os.path.dirname(os.path.abspath(__file__))
 ALL = ['C%02d' % i for i in range(1, 20)]
 
 CLAIMED = {
+ 'C02': dict(text="Theorems C02_emits_valid, C02_one_frame: for every packet of the domain Packet.InDomain (Props/Domain.lean: all 15 types; strings and user properties within 65535 bytes, non-empty keys, remaining length below 2^28, first byte as the constructor sets it, CONNECT flags as the setters maintain them with an unmodified will, protocol MQTT/5, at least one reason code/filter, legal subscription option bits, QoS <= 2) the bytes of the two-pass encoder are exactly one frame: unparse of an abstract packet that is Legal by the independent specification layer (allowed identifiers per packet with their wire type, at most once, short forms, minimal lengths equal to what follows) and whose specification-side reading (absent = zero value) equals the API values. Proofs.E*: per packet type, generic bridge in Proofs.EBridge (the encoder writes the non-zero fields in a fixed order, a legal occurrence list). Correspondence: WriteTo bytes of generated well-formed packets parsed by the strict Spec.parse in Lean (op SPEC) and compared with the accessor view.",
+             note="Structural validity is defined generatively (image of Spec.unparse over Spec.Legal); the strict parser Spec.parse is exercised dynamically on every emitted frame but parse-after-unparse is not yet a theorem. Spec.* is a hand-written reading of MQTT v5.0 and is trusted.",
+             technique="Lean 4 theorem (encoder output = specification unparser on a legal abstract packet, per packet type) + differential correspondence through an independent strict parser", ref="§7 C02"),
  'C03': dict(text="Theorems C03_frame / C03_accepts_valid: for every legal abstract packet of the independent specification layer (all 15 types, any property order, explicit zero values, every short form, strings up to 65535 bytes, multi-byte property lengths) the model of ReadPacket, under any reader schedule and followed by anything, returns a packet of the matching type whose accessor view equals the specification's view and consumes exactly the frame. Correspondence: specification-style frame generator in the harness, each frame through Go ReadPacket, the model and Spec.parse.",
              note="The valid-frame language is defined generatively as the image of Spec.unparse over Spec.Legal; Spec.* is a hand-written reading of MQTT v5.0 and is trusted. Model/code tie by differential testing.",
              technique="Lean 4 theorem (per-type refinement of the Go-shaped decoder against the specification unparser) + differential correspondence", ref="§7 C03"),
@@ -81,7 +84,7 @@ def main():
                    source_commits=['6edf761'], add_only=True),
         engines=[dict(name='lean-model', path='lean', serves_properties=sorted(CLAIMED), kind_free_text='Lean 4 model of the codec (Mq.*), proofs (Proofs.*), property theorems (Props.*), compiled line-protocol driver'),
                  dict(name='go-harness', path='harness', serves_properties=sorted(CLAIMED), kind_free_text='Go executor of the line protocol against /repo (build tag verif), seeded generators, killable worker'),
-                 dict(name='fact-extractor', path='extract', serves_properties=[p for p in ['C03', 'C10', 'C11', 'C13', 'C14', 'C19'] if p in CLAIMED], kind_free_text='Go translator (go/ast, go/types, go/ssa over /repo) regenerating lean/Mq/Generated/Facts.lean on every run: property tables, fillProp order, constants, stringer tables, map-range sites, effect and retain summaries; Proofs/Tie/*.lean re-checks them against the model'),
+                 dict(name='fact-extractor', path='extract', serves_properties=[p for p in ['C01', 'C02', 'C03', 'C10', 'C11', 'C13', 'C14', 'C19'] if p in CLAIMED], kind_free_text='Go translator (go/ast, go/types, go/ssa over /repo) regenerating lean/Mq/Generated/Facts.lean on every run: property tables, fillProp order, constants, stringer tables, map-range sites, effect and retain summaries; Proofs/Tie/*.lean re-checks them against the model'),
                  dict(name='judges', path='lib/judges.py', serves_properties=sorted(CLAIMED), kind_free_text='per-property verdict logic over implementation/model output streams')],
         checks=checks,
         notes='One entry point: ./check <ID> [--tier quick|thorough] [--replay path]; VERIF_SEED and VERIF_TIER are honoured. See DESIGN.md.',
